@@ -879,6 +879,26 @@ fn partition(
         }
     }
 
+    // With --match-links every path is a replica of its own, because the remaining hard links
+    // keep the data. This does not hold for a file with more paths than links: some of these
+    // paths are then one directory entry visible at several places (e.g. through a bind mount),
+    // and dropping one of them removes the other as well.
+    let mut same_entry_ids: std::collections::HashSet<FileId> = Default::default();
+    #[cfg(unix)]
+    if config.match_links {
+        use std::os::unix::fs::MetadataExt;
+        let mut path_counts: HashMap<FileId, u64> = HashMap::new();
+        for f in files.iter() {
+            *path_counts.entry(FileId::of(f)).or_default() += 1;
+        }
+        same_entry_ids.extend(
+            files
+                .iter()
+                .filter(|f| path_counts[&FileId::of(f)] > f.metadata.nlink())
+                .map(FileId::of),
+        );
+    }
+
     let mut file_sub_groups =
         FileSubGroup::group(files, &config.isolated_roots, !config.match_links);
 
@@ -922,10 +942,11 @@ fn partition(
     // to be dropped can be the very same file as a retained path (a hard link, or the target of
     // a retained symbolic link). Dropping it would gain nothing and could destroy the only copy
     // of the data, so such sub-groups are retained as well.
-    if !config.match_links {
+    if !config.match_links || !same_entry_ids.is_empty() {
         let retained_ids: std::collections::HashSet<FileId> = to_retain
             .iter()
             .flat_map(|g| g.files.iter().map(FileId::of))
+            .filter(|id| !config.match_links || same_entry_ids.contains(id))
             .collect();
         let (same_file, other): (Vec<_>, Vec<_>) = to_drop
             .into_iter()
